@@ -688,6 +688,10 @@ func (in *Interp) constValue(c *ssa.Const) Value {
 		}
 		if u.Info()&types.IsFloat != 0 {
 			f, _ := constant.Float64Val(c.Value)
+			if u.Kind() == types.Float32 {
+				f32, _ := constant.Float32Val(c.Value)
+				f = float64(f32)
+			}
 			return &OpaqueV{kind: "float", data: f}
 		}
 	case *types.Interface:
@@ -803,6 +807,9 @@ func (in *Interp) valueEq(a, b Value) *Term {
 		return in.tt.Bool(x.fn == nil && y.fn == nil)
 	case *OpaqueV:
 		y, ok := b.(*OpaqueV)
+		if ok && x.kind == "float" && y.kind == "float" && x.data != nil && y.data != nil {
+			return in.tt.Bool(x.data.(float64) == y.data.(float64))
+		}
 		return in.tt.Bool(ok && x == y)
 	}
 	in.unsupported(fmt.Sprintf("equality on %T", a))
@@ -1412,6 +1419,16 @@ func (in *Interp) binop(fr *frame, ins ssa.Instruction, op token.Token, a, b Val
 		case token.GEQ:
 			return in.tt.Not(in.strLess(x, y))
 		}
+	case *OpaqueV:
+		if r, ok := in.floatBinop(op, x, b, xt); ok {
+			return r
+		}
+		switch op {
+		case token.EQL:
+			return in.valueEq(a, b)
+		case token.NEQ:
+			return in.tt.Not(in.valueEq(a, b))
+		}
 	default:
 		switch op {
 		case token.EQL:
@@ -1463,7 +1480,7 @@ func (in *Interp) convert(fr *frame, ins ssa.Instruction, v Value, from, to type
 			}
 		}
 		if tb.Info()&types.IsFloat != 0 {
-			return &OpaqueV{kind: "float"}
+			return in.toFloat(v, fu, tb)
 		}
 	case *types.Slice:
 		fb, ok := fu.(*types.Basic)
